@@ -38,6 +38,7 @@ class Connection:
     if self.is_connected():
       raise gfapy.RuntimeError(
         "Line {} is already connected to a GFA instance".format(self))
+    self._check_not_self_referencing()
     previous = gfa._search_duplicate(self)
     if previous:
       if previous.virtual and \
@@ -55,6 +56,39 @@ class Connection:
         self._rollback_connect()
         raise
       return None
+
+  def _check_not_self_referencing(self):
+    """
+    A line cannot use its own identifier to refer to another line
+    (the placeholder created for the reference would carry the same
+    identifier as the line).
+    """
+    if self.__class__.NAME_FIELD is None:
+      return
+    name = self.get(self.__class__.NAME_FIELD)
+    if name is None or gfapy.is_placeholder(name):
+      return
+    name = str(name)
+    def mentions(ref):
+      if isinstance(ref, list):
+        return any(mentions(r) for r in ref)
+      if isinstance(ref, gfapy.OrientedLine):
+        ref = ref.line
+      if isinstance(ref, gfapy.Line):
+        ref = ref.name
+      return isinstance(ref, str) and ref == name
+    for k in self.__class__.REFERENCE_FIELDS:
+      if mentions(self.get(k)):
+        if self.record_type in ["O", "U"]:
+          raise gfapy.RuntimeError(
+            "Line: {}\n".format(self)+
+            "Item is the line itself\n"+
+            "A group is not allowed to refer to itself")
+        else:
+          raise gfapy.NotUniqueError(
+            "Line: {}\n".format(self)+
+            "The identifier {} of the line ".format(name)+
+            "is used in field {} to refer to another line".format(k))
 
   def _rollback_connect(self):
     """
